@@ -437,7 +437,7 @@ Proof.
   destruct Hstrict as [Hst0 Hst1].
   destruct (match terms with [] => false | _ => is_next terms (skip_ws c4) end).
   - split; [eapply adv_trans; eauto|]. split; [apply app_one_nonempty | exact Hst1].
-  - specialize (IH ty meta key (skip_ws c4) (parts ++ [p]) false (if stype_eqb ty TSimple then sp else rsp) Hm
+  - specialize (IH ty meta key (skip_ws c4) (parts ++ [p]) false (if stype_eqb ty TSimple && negb (is_some ftok) then sp else rsp) Hm
                    (fun _ => app_one_nonempty parts p)).
     assert (Hfu' : len (skip_ws c4) + 1 <= fuel).
     { destruct first.
